@@ -21,6 +21,7 @@ pub struct Node {
     wk: RefCell<Vec<Weak<Node>>>,
     script: RefCell<Vec<Act>>,
     panics: Cell<bool>,
+    shallow: Cell<bool>,
 }
 
 impl Node {
@@ -32,6 +33,7 @@ impl Node {
             wk: RefCell::new(Vec::new()),
             script: RefCell::new(Vec::new()),
             panics: Cell::new(false),
+            shallow: Cell::new(false),
         }
     }
 }
@@ -43,13 +45,15 @@ impl Clone for Node {
             w.next_vid += 1;
             v
         });
+        let shallow = self.shallow.get();
         Node {
             vid,
             canary: Cell::new(CANARY_LIVE),
-            out: RefCell::new(self.out.borrow().clone()),
-            wk: RefCell::new(self.wk.borrow().clone()),
+            out: RefCell::new(if shallow { Vec::new() } else { self.out.borrow().clone() }),
+            wk: RefCell::new(if shallow { Vec::new() } else { self.wk.borrow().clone() }),
             script: RefCell::new(self.script.borrow().clone()),
             panics: Cell::new(self.panics.get()),
+            shallow: Cell::new(shallow),
         }
     }
 }
@@ -451,7 +455,9 @@ pub fn apply_act(a: &Act, me: Option<&Node>) {
                             // cloned: the clone holds copies of every handle
                             w.rets.push(2);
                             w.dropped_targets.push(id);
-                            let nid = w.register(&h, vid, old_led.clone());
+                            // a shallow clone holds no handles
+                            let led = if h.shallow.get() { ValLedger::default() } else { old_led.clone() };
+                            let nid = w.register(&h, vid, led);
                             nid
                         } else {
                             // stolen: the value moved, the old allocation was given up
@@ -568,6 +574,11 @@ pub fn apply_act(a: &Act, me: Option<&Node>) {
                 w.roots[j].panics.set(true);
             }
         }),
+        Act::SetShallow(q) => with(|w| {
+            if let Some(j) = w.use_root(q) {
+                w.roots[j].shallow.set(true);
+            }
+        }),
         Act::UpgradeField(k) => {
             if let Some(me) = me {
                 let up = {
@@ -641,6 +652,11 @@ fn apply_op(op: &Op) {
         }),
         Op::Shuffle(q, _) => with(|w| {
             let _ = w.use_root(*q);
+        }),
+        Op::LeakWorld => with(|w| {
+            if w.stop.is_none() {
+                w.stop = Some("leakworld".into());
+            }
         }),
     }
 }
